@@ -423,6 +423,7 @@ def stream_equilibria(ctx):
         ec.poly = PolygonMask2D(eq.lcfs_polygon)
         ec.tri_edges = triangulation_edges(eq.lcfs_polygon)
         ec.dr, ec.dz = eq._calculate_differentials(eq.r_data, eq.z_data, eq.psi_data)
+        ec.dscale = float(np.abs(ec.psi).max()) / min(float(np.diff(ec.r).min()), float(np.diff(ec.z).min())) * 1e-3
         ec.sets = [ps_ for ps_ in (ProfSet(rng, ec, k_, ctx) for k_ in range(nsets)) if ps_.ok]
         ec.bpol_max = 0.0
         pts = sample_points(rng, ec, npts)
@@ -798,6 +799,26 @@ def grid_node_stream(ctx, ec):
             if st != 'ok' or abs(v - max(0.0, ref)) > 1e-9 * (1 + abs(ref)):
                 ctx.fail('C12:psi_normalised:grid-node', 'psi_normalised at grid node (%r, %r) = %r, normalised grid value %r on %s' % (r, z, v, ref, ec.name),
                          dict(equilibrium=ec.desc, r=r, z=z))
+    # derivative grids: the model's per-node formula (np.gradient in index space, edge_order=2, chain rule with the axis
+    # gradient) against the equilibrium's own _calculate_differentials at grid nodes (interpolant passes through its knots)
+    nr_, nz_ = len(ec.r), len(ec.z)
+    dn = [(0, 0), (nr_ - 1, nz_ - 1), (0, nz_ - 1), (nr_ - 1, 0)] + [(rng.randrange(nr_), rng.randrange(nz_)) for _ in range(ctx.n(40, 200))]
+    lines, wants = [], []
+    for (i, j) in dn:
+        for axis, n_, k_, arr, ax in ((0, nr_, i, ec.psi[:, j], ec.r), (1, nz_, j, ec.psi[i, :], ec.z)):
+            kind = 0 if k_ == 0 else (2 if k_ == n_ - 1 else 1)
+            lo = 0 if kind == 0 else (n_ - 3 if kind == 2 else k_ - 1)
+            lines.append('dnode %d %s %s' % (kind, fs(arr[lo:lo + 3]), fs(ax[lo:lo + 3])))
+            wants.append(((ec.dr, ec.dz)[axis], float(ec.r[i]), float(ec.z[j]), axis, i, j))
+    for line, o, (f, r, z, axis, i, j) in zip(lines, ctx.driver(lines), wants):
+        st, v = call(f, r, z)
+        m = b2f(o)
+        ctx.traces += 1
+        ctx.count('dnode')
+        ctx.case(key=('dnode', ec.name, axis, i, j))
+        if st != 'ok' or abs(v - m) > 1e-9 * (abs(m) + ec.dscale):
+            ctx.disagreements += 1
+            ctx.broke('correspondence', 'C12 stream dnode', dict(line=line, axis='rz'[axis], node=(i, j), model=m, implementation=v if st == 'ok' else st, equilibrium=ec.desc))
     # poloidal field vs flux derivatives
     r0, r1, z0, z1 = float(ec.r[0]), float(ec.r[-1]), float(ec.z[0]), float(ec.z[-1])
     hr, hz = (r1 - r0) / (len(ec.r) - 1), (z1 - z0) / (len(ec.z) - 1)
